@@ -132,6 +132,7 @@ def run(ctx: common.Run):
     check_single_pass_wrappers(ctx, cirq, sympy)
     check_symbolic_repetitions(ctx, cirq, sympy)
     check_derived_circuits(ctx, cirq, sympy)
+    check_sweep_measurements(ctx, cirq, sympy)
 
 
 def check_sweeps(ctx, cirq, n):
@@ -650,6 +651,34 @@ def _appended(c, op):
 def _inserted(c, op):
     c.insert(0, op)
     return c
+
+
+def check_sweep_measurements(ctx, cirq, sympy):
+    """simulate_sweep / run_sweep of a circuit with deterministic measurements: every result carries the measurement values of ITS
+    assignment (X**a with a in {0, 1}; m0 = a, m1 = a xor b), in the order of the sweep, for every simulator"""
+    rng = ctx.substream('sweep-measurements')
+    q = cirq.LineQubit(0)
+    a, b = sympy.Symbol('a'), sympy.Symbol('b')
+    circuit = cirq.Circuit(cirq.X(q) ** a, cirq.measure(q, key='m0'), cirq.X(q) ** b, cirq.measure(q, key='m1'))
+    sweeps = [cirq.Product(cirq.Points('a', [0, 1, 1]), cirq.Points('b', [1, 0])), cirq.Zip(cirq.Points('a', [1, 0, 1, 0]), cirq.Points('b', [1, 1, 0, 0])),
+              cirq.ListSweep([cirq.ParamResolver({'a': 1, 'b': 0}), cirq.ParamResolver({'a': 0, 'b': 0}), cirq.ParamResolver({'a': 0, 'b': 1})])]
+    sims = {'Simulator': cirq.Simulator, 'DensityMatrixSimulator': cirq.DensityMatrixSimulator, 'CliffordSimulator': cirq.CliffordSimulator}
+    for sweep in sweeps:
+        want = [(int(r.value_of('a')) % 2, (int(r.value_of('a')) + int(r.value_of('b'))) % 2) for r in sweep]
+        for name, mk in sims.items():
+            ctx.count('check', 'sweep-measurements')
+            ctx.case(['sweep-measurements', name, repr(sweep)], True)
+            try:
+                res = mk().simulate_sweep(circuit, sweep)
+                got = [(int(r.measurements['m0'][0]), int(r.measurements['m1'][0])) for r in res]
+                params_ok = [dict(r.params.param_dict) for r in res] == [dict(r.param_dict) for r in sweep]
+                run = mk().run_sweep(circuit, sweep, repetitions=2)
+                got_run = [(int(r.records['m0'][0, 0, 0]), int(r.records['m1'][1, 0, 0])) for r in run]
+            except Exception as e:  # noqa: BLE001
+                got, params_ok, got_run = f'{type(e).__name__}: {e}'[:120], False, None
+            if got != want or not params_ok or got_run != want:
+                ctx.report_witness(f'sweep:measurements:{name}', f'{name}.simulate_sweep / run_sweep: a result does not carry the measurement values of its own assignment',
+                                   {'lines': [{'sweep': repr(sweep), 'circuit': repr(circuit)}], 'impl_out': [got, got_run], 'spec_out': [want], 'theorem_or_correspondence': 'simulate_sweep_eq'})
 
 
 def check_single_pass_wrappers(ctx, cirq, sympy):
